@@ -43,6 +43,12 @@ var ActionSnippets = []struct {
 	{" p.S = \"é世😀\\x00\" ", "non-ascii-in-action"},
 	{"\n\tp.N++\n\tp.N--\n", "multi-line"},
 	{"", "empty-action"},
+	// characters that mean something to whatever carries the code into the output
+	// (format verbs, template delimiters, escapes)
+	{" p.N = p.N % 3 ", "percent-operator-in-action"},
+	{" p.S = \"%d %s %v %% %!\" ", "format-verbs-in-action"},
+	{" p.S = \"{{.}} {{end}}\" ", "template-delimiters-in-action"},
+	{" p.S = \"\\n\\t\\\\ $1 ${x}\" ", "escapes-and-dollars-in-action"},
 }
 
 var PredSnippets = []struct {
@@ -53,6 +59,8 @@ var PredSnippets = []struct {
 	{" p.N >= 0 // c\n ", "line-comment-in-predicate"},
 	{" p.N >= 0 &&\n true ", "multi-line-predicate"},
 	{" func() bool { return true }() ", "braces-in-predicate"},
+	{" p.N%2 == 0 || true ", "percent-operator-in-predicate"},
+	{" p.S != \"%s{{.}}\" ", "format-verb-and-template-delimiter-in-predicate"},
 }
 
 var StateSnippets = []struct {
@@ -61,6 +69,8 @@ var StateSnippets = []struct {
 	{" p.N++ ", "plain"},
 	{" p.N++ // c\n ", "line-comment-in-state-change"},
 	{" /* c */ p.N++ ", "block-comment-in-state-change"},
+	{" p.N %= 7 ", "percent-operator-in-state-change"},
+	{" p.S = \"%d{{end}}\\n\" ", "format-verb-and-template-delimiter-in-state-change"},
 }
 
 // DecorateOpts selects what Decorate may add.
@@ -258,7 +268,7 @@ func AddWarned(t *rapid.T, g *Grammar) []string {
 	for k := 0; k < n; k++ {
 		idx := rapid.IntRange(1, len(g.Rules)).Draw(t, "widx")
 		any := func() *Expr { return Ref(rapid.IntRange(0, len(g.Rules)-1).Draw(t, "wref")) }
-		kind := rapid.SampledFrom([]string{"unused", "unused", "unused-cycle", "unused-recursive", "undefined", "undefined-in-unused"}).Draw(t, "wkind")
+		kind := rapid.SampledFrom([]string{"unused", "unused", "unused-cycle", "unused-recursive", "undefined", "undefined-in-unused", "unused-left-recursive"}).Draw(t, "wkind")
 		switch kind {
 		case "unused":
 			var body *Expr
@@ -281,6 +291,10 @@ func AddWarned(t *rapid.T, g *Grammar) []string {
 		case "unused-recursive":
 			name := fmt.Sprintf("UnusedR%dx%d", len(g.Rules), k)
 			InsertRule(g, idx, &Rule{Name: name, Body: Seq(term(), Un(KOpt, &Expr{K: KRef, Name: name}))})
+		case "unused-left-recursive":
+			// two diagnostics for one rule, and the left-recursion pass has something to report
+			name := fmt.Sprintf("UnusedL%dx%d", len(g.Rules), k)
+			InsertRule(g, idx, &Rule{Name: name, Body: &Expr{K: KAlt, Kids: []*Expr{Seq(&Expr{K: KRef, Name: name}, term()), term()}}})
 		case "undefined":
 			r := g.Rules[rapid.IntRange(0, len(g.Rules)-1).Draw(t, "wur")]
 			r.Body = Seq(r.Body, Un(KOpt, &Expr{K: KRef, Name: fmt.Sprintf("Undefined%dx%d", len(g.Rules), k)}))
